@@ -225,3 +225,80 @@ Definition encode_sver_semver (x y pcpu vcpu buf date : Z) (name d1 d2 d3 labels
 
 Definition sver_header_valid (x y pcpu vcpu buf : Z) : Prop :=
   is_byte x /\ is_byte y /\ is_byte pcpu /\ is_byte vcpu /\ 0 <= buf < 65536.
+
+(* ------------------------------------------------------------------------------------------------ *)
+(* the place-and-route model derived from a description [si] matches the machine                     *)
+
+Definition machine_busy (cs : chip_state) (p : Z) : Prop :=
+  0 <= p < Z.min (cs_cores cs) 18 /\ nth (Z.to_nat p) (cs_states cs) idle_state <> idle_state.
+
+Definition model_matches_machine (route : chip -> Z) (answers : chip -> option chip_state) (w h : Z) (si : sysinfo)
+  : Prop :=
+  let m := build_machine si in
+  let cons := build_core_constraints si in
+  (forall c, pm_has_chip m c = true <-> (has_route route w h c /\ exists cs, answers c = Some cs)) /\
+  (forall c cs, has_route route w h c -> answers c = Some cs ->
+     si_get si c = Some (truth_info cs) /\
+     pm_get m c = Ok (cs_cores cs, cs_sdram cs, cs_sram cs) /\
+     (forall l, In l [0; 1; 2; 3; 4; 5] -> (pm_has_link m c l = true <-> Z.testbit (cs_linkmask cs) l = true)) /\
+     cassoc c (target_lengths si) = Some (cs_rtr cs) /\
+     (forall r, In r (ranges_on c cons) -> 0 <= fst r < snd r) /\
+     (forall p, (cover_count p (ranges_on c cons) <= 1)%nat) /\
+     (forall p, (exists r, In r (ranges_on c cons) /\ fst r <= p < snd r) <-> machine_busy cs p)) /\
+  (forall k, In k cons -> snd k = None \/ exists c, snd k = Some c /\ pm_has_chip m c = true).
+
+(* ------------------------------------------------------------------------------------------------ *)
+(* any struct layout                                                                                  *)
+
+(* an integer field of n bytes: struct character B / H / I *)
+Definition int_pack (pack : string) (n : nat) : Prop :=
+  (pack = "B"%string /\ n = 1%nat) \/ (pack = "H"%string /\ n = 2%nat) \/ (pack = "I"%string /\ n = 4%nat).
+
+(* memory holds value v in the field f of the struct at [base] *)
+Definition field_holds (rd : reader) (base : Z) (f : string * Z * Z) (v : Z) : Prop :=
+  exists pack off n, f = (pack, off, 1) /\ int_pack pack n /\ 0 <= v < 256 ^ Z.of_nat n /\
+                     rd (base + off) (Z.of_nat n) = le_encode n v.
+
+(* a vcpu layout: the fields of vcpu_t (names and struct characters as documented) at offsets [offs], in
+   this order *)
+Definition vcpu_names_packs : list (string * (string * Z)) :=
+  [("r0", ("I", 1)); ("r1", ("I", 1)); ("r2", ("I", 1)); ("r3", ("I", 1)); ("r4", ("I", 1)); ("r5", ("I", 1));
+   ("r6", ("I", 1)); ("r7", ("I", 1)); ("psr", ("I", 1)); ("sp", ("I", 1)); ("lr", ("I", 1));
+   ("rt_code", ("B", 1)); ("phys_cpu", ("B", 1)); ("cpu_state", ("B", 1)); ("app_id", ("B", 1));
+   ("mbox_ap_msg", ("I", 1)); ("mbox_mp_msg", ("I", 1)); ("mbox_ap_cmd", ("B", 1)); ("mbox_mp_cmd", ("B", 1));
+   ("sw_count", ("H", 1)); ("sw_file", ("I", 1)); ("sw_line", ("I", 1)); ("time", ("I", 1));
+   ("app_name", ("16s", 16)); ("iobuf", ("I", 1)); ("sw_ver", ("I", 1)); ("__PAD", ("I", 4));
+   ("user0", ("I", 1)); ("user1", ("I", 1)); ("user2", ("I", 1)); ("user3", ("I", 1))]%string.
+
+Definition vcpu_field_sizes : list Z :=
+  [4; 4; 4; 4; 4; 4; 4; 4; 4; 4; 4; 1; 1; 1; 1; 4; 4; 1; 1; 2; 4; 4; 4; 16; 4; 4; 4; 4; 4; 4; 4].
+
+Definition packaged_vcpu_offsets : list Z :=
+  [0; 4; 8; 12; 16; 20; 24; 28; 32; 36; 40; 44; 45; 46; 47; 48; 52; 56; 57; 58; 60; 64; 68; 72; 88; 92; 96;
+   112; 116; 120; 124].
+
+Definition vcpu_fields_at (offs : list Z) : list (string * (string * Z * Z)) :=
+  map (fun no => (fst (fst no), (fst (snd (fst no)), snd no, snd (snd (fst no))))) (combine vcpu_names_packs offs).
+
+(* every field lies inside the block (the part of __PAD that is read is its first word) *)
+Definition vcpu_offsets_fit (offs : list Z) (size : Z) : Prop :=
+  Forall2 (fun o n => 0 <= o /\ o + n <= size) offs vcpu_field_sizes.
+
+Definition status_truth_at (offs : list Z) (d : list Z) : list (list Z) :=
+  let o i := Z.to_nat (nth i offs 0) in
+  [ [u32_at d (o 0%nat); u32_at d (o 1%nat); u32_at d (o 2%nat); u32_at d (o 3%nat); u32_at d (o 4%nat);
+     u32_at d (o 5%nat); u32_at d (o 6%nat); u32_at d (o 7%nat)];
+    [u32_at d (o 8%nat)]; [u32_at d (o 9%nat)]; [u32_at d (o 10%nat)];
+    [u8_at d (o 11%nat)]; [u8_at d (o 12%nat)]; [u8_at d (o 13%nat)];
+    [u32_at d (o 15%nat)]; [u32_at d (o 16%nat)]; [u8_at d (o 17%nat)]; [u8_at d (o 18%nat)];
+    [u16_at d (o 19%nat)]; [u32_at d (o 20%nat)]; [u32_at d (o 21%nat)]; [u32_at d (o 22%nat)];
+    strip0 (firstn 16 (skipn (o 23%nat) d));
+    [u32_at d (o 24%nat)]; [u8_at d (o 14%nat)];
+    [(u32_at d (o 25%nat) / 65536) mod 256; (u32_at d (o 25%nat) / 256) mod 256; u32_at d (o 25%nat) mod 256];
+    [u32_at d (o 27%nat); u32_at d (o 28%nat); u32_at d (o 29%nat); u32_at d (o 30%nat)] ].
+
+Definition status_block_valid_at (offs : list Z) (size : Z) (d : list Z) : Prop :=
+  Z.of_nat (length d) = size /\ Forall is_byte d /\ length offs = 31%nat /\ vcpu_offsets_fit offs size /\
+  In (u8_at d (Z.to_nat (nth 13 offs 0))) app_states /\
+  0 <= u8_at d (Z.to_nat (nth 11 offs 0)) <= rte_codes_max /\
+  is_ascii (strip0 (firstn 16 (skipn (Z.to_nat (nth 23 offs 0)) d))) = true.
